@@ -1323,6 +1323,7 @@ DOC_ODD = (
     ('nul-in-env-name', '[setup]\nenv A\x00 = x\n'), ('nul-in-string', "[setup]\ndef string S = 'a\x00b'\n"),
     ('nul-in-file-name', '[setup]\ndir a\x00b\n'), ('nul-in-file-name-2', '[setup]\nfile a\x00b = x\n'),
     ('nul-in-path-argument', '[assert]\nexists a\x00b\n'),
+    ('nul-in-including-path', '[setup]\nincluding a\x00b\n'), ('nul-in-including-path-act', '[act]\nincluding \x00\n'),  # fix a1b1ace
     ('act-rest-of-line-with-quote', "[act]\n-python -c :> 'not a token\n"),
 )
 
